@@ -841,6 +841,8 @@ impl JobServerHandle {
             // (capped: the sleep above never exceeds a second anyway, and an uncapped Duration overflows —
             // and panics — after about 65 s of waiting)
             backoff = cmp::min(backoff * 2, Duration::from_secs(1));
+            #[cfg(feature = "verif")]
+            crate::verif::point("js.backoff", &format!("{}", backoff.as_millis()));
             {
                 let has_token = {
                     let state = self.state.borrow();
